@@ -164,6 +164,13 @@ package hcl
 
 // ---- the text diagnostic writer shows no marked content (unit U18b, C19) ----
 // verif:unit U18b props=C19
+// (round 8) File-wide rule, for every function of diagnostic_text.go including ones added later:
+// the text writer never removes marks from a value and never asks a value for its range (which
+// reveals refinements such as a known string prefix, and needs an unmarked value) - whatever it
+// shows it shows of values it found unmarked.
+// verif:filecalls diagnostic_text.go Unmark noUnmark: false
+// verif:filecalls diagnostic_text.go UnmarkDeep noUnmarkDeep: false
+// verif:filecalls diagnostic_text.go UnmarkDeepWithPaths noUnmarkPaths: false
 // The "with x as ..." lines of a rendered diagnostic describe values of the evaluation scope. A
 // value may be described (valueStr prints strings, numbers and attribute names) only if it carries
 // no marks and nobody has stripped marks off it first: unmarking does not launder.
